@@ -216,8 +216,8 @@ func checkC04(p *Prog, r *Report) {
 		return false
 	}
 	isUnlink := func(c ssa.CallInstruction) (string, bool) {
-		if isWalkDirFunc(c.Parent()) {
-			return "", false
+		if _, inWalk := walkContext(g, c.Parent(), 0); inWalk {
+			return "", false // the --delete walk (see C09)
 		}
 		n := calleeName(c)
 		if n == "(*os.Root).Remove" || n == "(*os.Root).RemoveAll" {
